@@ -158,3 +158,240 @@ pub fn c03_grid(ctx: &Ctx) -> SearchReport {
     }
     rep
 }
+
+// ---------------------------------------------------------------------------------------------
+// C14 (a): the doubling retry strategy object
+
+use proptest::collection::vec;
+use proptest::prelude::*;
+use serde::{Deserialize, Serialize};
+use std::time::Duration;
+
+#[derive(Clone, Debug, PartialEq, Eq, Hash, Serialize, Deserialize)]
+pub enum RetryOp {
+    /// a connect attempt failed: after_failed_connect()
+    Failed,
+    /// a connect attempt succeeded: reset(); the connection is later lost: after_disconnect()
+    SucceededThenLost,
+    /// reset() twice in a row is harmless (TLS handshake path calls it once per connection)
+    Succeeded,
+}
+
+#[derive(Clone, Debug, PartialEq, Eq, Hash, Serialize, Deserialize)]
+pub struct RetryCase {
+    pub min_ns: u64,
+    pub max_ns: u64,
+    pub ops: Vec<RetryOp>,
+}
+
+pub fn arb_retry() -> BoxedStrategy<RetryCase> {
+    let dur = prop_oneof![
+        3 => 1_000_000u64..=10_000_000_000,
+        2 => prop::sample::select(vec![1_000_000u64, 1_000_000_000, 60_000_000_000, 1_500_000, 999_999_999]),
+        1 => 1_000_000u64..=4_294_967_296_000_000_000,
+    ];
+    (dur.clone(), dur, prop_oneof![1 => Just(1u64), 1 => Just(2), 1 => Just(3), 2 => 1u64..2000], vec(prop_oneof![5 => Just(RetryOp::Failed), 2 => Just(RetryOp::SucceededThenLost), 1 => Just(RetryOp::Succeeded)], 1..80))
+        .prop_map(|(a, b, mult, ops)| {
+            let min_ns = a.min(b);
+            // max is often a small multiple of min so that the cap is reached
+            let max_ns = if mult < 1000 { min_ns.saturating_mul(mult).min(4_294_967_296_000_000_000) } else { a.max(b) };
+            RetryCase { min_ns, max_ns: max_ns.max(min_ns), ops }
+        })
+        .boxed()
+}
+
+pub fn check_retry(case: &RetryCase) -> CaseResult {
+    let mut ok = CaseOk::new();
+    let min = Duration::from_nanos(case.min_ns);
+    let max = Duration::from_nanos(case.max_ns);
+    let mut s = rodbus::doubling_retry_strategy(min, max);
+    let mut k: u32 = 0; // consecutive failures so far
+    let mut capped = false;
+    let mut restarted_after_cap = false;
+    for (i, op) in case.ops.iter().enumerate() {
+        match op {
+            RetryOp::Failed => {
+                k += 1;
+                let expect_ns: u128 = std::cmp::min(
+                    (case.min_ns as u128) << (k - 1).min(100),
+                    case.max_ns as u128,
+                );
+                let got = s.after_failed_connect();
+                if got.as_nanos() != expect_ns {
+                    return Err(format!(
+                        "op {}: failed connect no. {} in a row with min {:?} max {:?}: delay {:?}, expected {} ns",
+                        i, k, min, max, got, expect_ns
+                    ));
+                }
+                if expect_ns == case.max_ns as u128 && case.max_ns > case.min_ns {
+                    capped = true;
+                }
+            }
+            RetryOp::SucceededThenLost => {
+                s.reset();
+                if capped {
+                    restarted_after_cap = true;
+                }
+                k = 0;
+                let got = s.after_disconnect();
+                if got != min {
+                    return Err(format!(
+                        "op {}: delay after a lost connection is {:?}, expected min {:?}",
+                        i, got, min
+                    ));
+                }
+            }
+            RetryOp::Succeeded => {
+                s.reset();
+                if capped {
+                    restarted_after_cap = true;
+                }
+                k = 0;
+            }
+        }
+    }
+    if capped {
+        ok.label("cap_reached");
+    }
+    if restarted_after_cap {
+        ok.label("restart_after_cap");
+    }
+    ok.nontrivial = capped && restarted_after_cap;
+    Ok(ok)
+}
+
+// ---------------------------------------------------------------------------------------------
+// C16 (a): wildcard strings
+
+#[derive(Clone, Debug, PartialEq, Eq, Hash, Serialize, Deserialize)]
+pub struct WildcardCase {
+    pub text: String,
+}
+
+pub fn arb_wildcard() -> BoxedStrategy<WildcardCase> {
+    let field = prop_oneof![
+        6 => Just("*".to_string()),
+        8 => (0u32..=255).prop_map(|n| n.to_string()),
+        3 => prop::sample::select(vec!["0", "1", "127", "128", "254", "255", "256", "257", "300", "999", "1000", "65536"]).prop_map(|s| s.to_string()),
+        2 => (0u32..=300).prop_map(|n| format!("{:03}", n)),
+        1 => (0u32..=255).prop_map(|n| format!("000000000000000000000{}", n)),
+        1 => (0u32..=255).prop_map(|n| format!("+{}", n)),
+        1 => (0u32..=255).prop_map(|n| format!("-{}", n)),
+        1 => Just(String::new()),
+        1 => (0u32..=255).prop_map(|n| format!(" {}", n)),
+        1 => (0u32..=255).prop_map(|n| format!("{} ", n)),
+        1 => (0u32..=255).prop_map(|n| format!("0x{:x}", n)),
+        1 => (0u32..=255).prop_map(|n| format!("{:x}", n)),
+        1 => prop::sample::select(vec!["**", "*1", "1*", "٣", "１２", "²", "1e1", "1.0", "1_0", "*.", "a"]).prop_map(|s| s.to_string()),
+        1 => "\\PC{0,3}".prop_map(|s| s),
+    ];
+    let sep = prop_oneof![12 => Just("."), 1 => Just(","), 1 => Just(".."), 1 => Just(" ."), 1 => Just(":")];
+    (vec((field, sep), 1..=6), prop::bool::weighted(0.05), prop::bool::weighted(0.05))
+        .prop_map(|(parts, lead, trail)| {
+            let mut s = String::new();
+            if lead {
+                s.push('.');
+            }
+            let n = parts.len();
+            for (i, (f, sep)) in parts.into_iter().enumerate() {
+                s.push_str(&f);
+                if i + 1 < n {
+                    s.push_str(sep);
+                }
+            }
+            if trail {
+                s.push('.');
+            }
+            WildcardCase { text: s }
+        })
+        .boxed()
+}
+
+/// Reference grammar: exactly four '.'-separated fields, each "*" or a decimal number 0..=255.
+/// Returns None when the statement leaves the answer open ("+n").
+fn model_wildcard(text: &str) -> Option<Result<[Option<u8>; 4], ()>> {
+    let fields: Vec<&str> = text.split('.').collect();
+    if fields.len() != 4 {
+        return Some(Err(()));
+    }
+    let mut out = [None; 4];
+    let mut open = false;
+    for (i, f) in fields.iter().enumerate() {
+        if *f == "*" {
+            out[i] = None;
+            continue;
+        }
+        let digits = if let Some(rest) = f.strip_prefix('+') {
+            // "a number": whether an explicit plus sign is a number is not stated
+            if !rest.is_empty() && rest.bytes().all(|b| b.is_ascii_digit()) {
+                open = true;
+            }
+            rest
+        } else {
+            f
+        };
+        if digits.is_empty() || !digits.bytes().all(|b| b.is_ascii_digit()) {
+            return Some(Err(()));
+        }
+        let trimmed = digits.trim_start_matches('0');
+        if trimmed.len() > 3 {
+            return Some(Err(()));
+        }
+        let v: u32 = if trimmed.is_empty() { 0 } else { trimmed.parse().unwrap() };
+        if v > 255 {
+            return Some(Err(()));
+        }
+        out[i] = Some(v as u8);
+    }
+    if open {
+        None
+    } else {
+        Some(Ok(out))
+    }
+}
+
+pub fn check_wildcard(case: &WildcardCase) -> CaseResult {
+    use std::str::FromStr;
+    let mut ok = CaseOk::new();
+    let got = rodbus::server::WildcardIPv4::from_str(&case.text);
+    match model_wildcard(&case.text) {
+        None => {
+            ok.label("dontcare:plus_sign");
+            ok.dontcare += 1;
+        }
+        Some(Err(())) => {
+            ok.label("model:reject");
+            if let Ok(w) = got {
+                return Err(format!(
+                    "wildcard string {:?} is not four fields of '*' or 0-255 but was accepted as {:?}",
+                    case.text, w
+                ));
+            }
+            // non-trivial: exactly four fields, one of them bad; or 3/5 fields all good
+            let n = case.text.split('.').count();
+            ok.nontrivial = (3..=5).contains(&n);
+        }
+        Some(Ok(octets)) => {
+            ok.label("model:accept");
+            match got {
+                Err(_) => {
+                    return Err(format!("valid wildcard string {:?} was rejected", case.text));
+                }
+                Ok(w) => {
+                    let expect = format!(
+                        "WildcardIPv4 {{ b3: {:?}, b2: {:?}, b1: {:?}, b0: {:?} }}",
+                        octets[0], octets[1], octets[2], octets[3]
+                    );
+                    if format!("{:?}", w) != expect {
+                        return Err(format!(
+                            "wildcard string {:?} parsed as {:?}, expected {}",
+                            case.text, w, expect
+                        ));
+                    }
+                }
+            }
+            ok.nontrivial = true;
+        }
+    }
+    Ok(ok)
+}
